@@ -5,6 +5,7 @@ import (
 	"regexp"
 	"strconv"
 	"strings"
+	"time"
 )
 
 // ---------------------------------------------------------------- status
@@ -188,4 +189,13 @@ func ParseBranchList(out string) (names []string, current string) {
 		}
 	}
 	return
+}
+
+// parseLogDate converts "2006-01-02", "15:04:05", "-0700" to a Unix instant.
+func parseLogDate(d, t, z string) (int64, error) {
+	tm, err := time.Parse("2006-01-02 15:04:05 -0700", d+" "+t+" "+z)
+	if err != nil {
+		return 0, err
+	}
+	return tm.Unix(), nil
 }
